@@ -111,4 +111,225 @@ theorem step_ok (tbl : Table) (hc : Closed tbl) (c : Conf) (hinv : StackInv tbl 
     · trivial_out
     · trivial_out
 
+/-! ## the token list only shrinks -/
+
+theorem reduce_inl_toks (tbl : Table) (c c' : Conf) (A n : Nat) (dp : Int) (pid : Nat) (eoe : Bool)
+    (h : (match reduce tbl c.stack A n dp pid eoe with
+          | .ok st => (Sum.inl { c with stack := st } : Conf ⊕ Outcome)
+          | .error f => .inr (.fault f)) = .inl c') :
+    c'.toks = c.toks ∧ reduce tbl c.stack A n dp pid eoe = .ok c'.stack := by
+  cases hr : reduce tbl c.stack A n dp pid eoe with
+  | ok st => rw [hr] at h; cases h; exact ⟨rfl, rfl⟩
+  | error f => rw [hr] at h; cases h
+
+/-- What one step does to the configuration: a reduce (tokens unchanged) or a shift (head token consumed). -/
+theorem step_shape (tbl : Table) (c c' : Conf) (h : step tbl c = .inl c') :
+    (c'.toks = c.toks ∧ ∃ A n dp pid eoe, reduce tbl c.stack A n dp pid eoe = .ok c'.stack) ∨
+    (∃ a s e, c.toks = a :: c'.toks ∧ c'.stack = (s, PTree.leaf a e) :: c.stack) := by
+  unfold step at h
+  simp only at h
+  split at h
+  · split at h
+    · cases h
+    · next A n dp pid _ =>
+      have := reduce_inl_toks tbl c c' A n dp pid true h
+      exact .inl ⟨this.1, A, n, dp, pid, true, this.2⟩
+    · cases h
+  · split at h
+    · cases h
+    · next s' extra rep _ =>
+      cases htoks : c.toks with
+      | nil => simp [htoks] at h
+      | cons a rest =>
+        simp only [htoks] at h
+        cases extra with
+        | true =>
+          simp only [if_true] at h
+          split at h
+          · cases h
+          · cases h; exact .inr ⟨a, _, true, rfl, rfl⟩
+        | false =>
+          simp only [Bool.false_eq_true, if_false] at h
+          split at h
+          · cases h
+          · cases h; exact .inr ⟨a, _, false, rfl, rfl⟩
+    · next A n dp pid _ =>
+      have := reduce_inl_toks tbl c c' A n dp pid false h
+      exact .inl ⟨this.1, A, n, dp, pid, false, this.2⟩
+    · split at h
+      · split at h <;> cases h
+      · cases h
+    · cases h
+    · cases h
+
+theorem step_toks_sub (tbl : Table) (c c' : Conf) (h : step tbl c = .inl c') : ∀ a, a ∈ c'.toks → a ∈ c.toks := by
+  rcases step_shape tbl c c' h with ⟨ht, _⟩ | ⟨a, s, e, ht, _⟩
+  · intro x hx; rw [← ht]; exact hx
+  · intro x hx; rw [ht]; exact List.mem_cons_of_mem _ hx
+
+/-- `driver_no_fault` for the loop, from any configuration satisfying the invariant. -/
+theorem runLoop_no_fault (tbl : Table) (hc : Closed tbl) :
+    ∀ (fuel : Nat) (c : Conf), StackInv tbl c.stack → (∀ a, a ∈ c.toks → a ≠ 0) →
+      ∀ f, runLoop tbl fuel c ≠ .fault f := by
+  intro fuel
+  induction fuel with
+  | zero => intro c _ _ f h; simp [runLoop] at h
+  | succ k ih =>
+    intro c hinv hnz f
+    have hs := step_ok tbl hc c hinv hnz
+    unfold runLoop
+    cases hstep : step tbl c with
+    | inl c' =>
+      simp only
+      exact ih c' (hs.1 c' hstep) (fun a ha => hnz a (step_toks_sub tbl c c' hstep a ha)) f
+    | inr o =>
+      simp only
+      intro ho
+      subst ho
+      exact hs.2 f hstep
+
+/-! ## yield -/
+
+def stackLeaves : Stack → List Nat
+  | [] => []
+  | (_, t) :: rest => stackLeaves rest ++ t.leaves
+
+theorem leavesL_append (xs ys : List PTree) : PTree.leavesL (xs ++ ys) = PTree.leavesL xs ++ PTree.leavesL ys := by
+  induction xs with
+  | nil => simp [PTree.leavesL]
+  | cons x xs ih => simp [PTree.leavesL, ih]
+
+theorem leavesL_singleton (t : PTree) : PTree.leavesL [t] = t.leaves := by simp [PTree.leavesL]
+
+theorem popN_leaves : ∀ (st : Stack) (n : Nat) (ks : List PTree) (rest : Stack),
+    popN n st = some (ks, rest) → stackLeaves st = stackLeaves rest ++ PTree.leavesL ks := by
+  intro st
+  induction st with
+  | nil =>
+    intro n ks rest h
+    cases n with
+    | zero => simp [popN] at h; obtain ⟨rfl, rfl⟩ := h; simp [stackLeaves, PTree.leavesL]
+    | succ n => simp [popN] at h
+  | cons e tl ih =>
+    intro n ks rest h
+    obtain ⟨s, t⟩ := e
+    cases n with
+    | zero => simp [popN] at h; obtain ⟨rfl, rfl⟩ := h; simp [PTree.leavesL]
+    | succ n =>
+      simp only [popN] at h
+      cases hp : popN (if t.isExtra = true then n + 1 else n) tl with
+      | none => simp [hp] at h
+      | some r =>
+        obtain ⟨ks', r'⟩ := r
+        simp [hp] at h
+        obtain ⟨rfl, rfl⟩ := h
+        have := ih _ ks' r' hp
+        simp [stackLeaves, this, leavesL_append, leavesL_singleton, List.append_assoc]
+
+theorem splitTrailing_append (ks : List PTree) : (splitTrailing ks).1 ++ (splitTrailing ks).2 = ks := by
+  unfold splitTrailing
+  simp only
+  rw [← List.reverse_append, List.takeWhile_append_dropWhile, List.reverse_reverse]
+
+theorem stackLeaves_push (q : Nat) : ∀ (l : List PTree) (base : Stack),
+    stackLeaves (l.map (fun t => (q, t)) ++ base) = stackLeaves base ++ PTree.leavesL l.reverse := by
+  intro l
+  induction l with
+  | nil => intro base; simp [PTree.leavesL]
+  | cons t ts ih =>
+    intro base
+    simp [stackLeaves, ih, leavesL_append, leavesL_singleton, List.append_assoc]
+
+theorem reduce_leaves (tbl : Table) (st st' : Stack) (A n : Nat) (dp : Int) (pid : Nat) (eoe : Bool)
+    (h : reduce tbl st A n dp pid eoe = .ok st') : stackLeaves st' = stackLeaves st := by
+  unfold reduce at h
+  cases hp : popN n st with
+  | none => simp [hp] at h
+  | some r =>
+    obtain ⟨kids, rest⟩ := r
+    simp only [hp] at h
+    split at h
+    · cases h
+    · cases h
+      rw [stackLeaves_push, popN_leaves st n kids rest hp]
+      simp only [stackLeaves, PTree.leaves, List.reverse_reverse, List.append_assoc]
+      rw [← leavesL_append, splitTrailing_append]
+
+theorem acceptTree_leaves (st : Stack) (t : PTree) (h : acceptTree st = some t) :
+    t.leaves = stackLeaves st ++ [0] := by
+  have hst : ∀ (s : Stack), stackLeaves s = PTree.leavesL (s.map (·.2)).reverse := by
+    intro s
+    induction s with
+    | nil => simp [stackLeaves, PTree.leavesL]
+    | cons e tl ih => obtain ⟨q, x⟩ := e; simp [stackLeaves, ih, leavesL_append, leavesL_singleton]
+  unfold acceptTree at h
+  simp only at h
+  split at h
+  · next sym pid dp e kids beforeRev hdw =>
+    cases h
+    have hsplit := List.takeWhile_append_dropWhile (p := PTree.isExtra) (l := PTree.leaf 0 true :: st.map (·.2))
+    rw [hdw] at hsplit
+    have hrev : (st.map (·.2)).reverse ++ [PTree.leaf 0 true] =
+        beforeRev.reverse ++ [PTree.node sym pid dp e kids] ++
+          (List.takeWhile PTree.isExtra (PTree.leaf 0 true :: st.map (·.2))).reverse := by
+      have := congrArg List.reverse hsplit
+      simp only [List.reverse_append, List.reverse_cons] at this
+      simp only [List.append_assoc] at this ⊢
+      exact this.symm
+    have h0 : stackLeaves st ++ [0] = PTree.leavesL ((st.map (·.2)).reverse ++ [PTree.leaf 0 true]) := by
+      rw [leavesL_append, hst st, leavesL_singleton]; rfl
+    rw [h0, hrev]
+    simp only [PTree.leaves, leavesL_append, leavesL_singleton]
+  · cases h
+
+/-- The yield invariant of the loop. -/
+theorem runLoop_yield (tbl : Table) : ∀ (fuel : Nat) (c : Conf) (t : PTree),
+    runLoop tbl fuel c = .accepted t → t.leaves = stackLeaves c.stack ++ c.toks ++ [0] := by
+  intro fuel
+  induction fuel with
+  | zero => intro c t h; simp [runLoop] at h
+  | succ k ih =>
+    intro c t h
+    unfold runLoop at h
+    cases hstep : step tbl c with
+    | inl c' =>
+      rw [hstep] at h
+      simp only at h
+      have := ih c' t h
+      rcases step_shape tbl c c' hstep with ⟨ht, A, n, dp, pid, eoe, hr⟩ | ⟨a, s, e, ht, hs⟩
+      · rw [this, ht, reduce_leaves tbl _ _ A n dp pid eoe hr]
+      · rw [this, ht, hs]; simp [stackLeaves, PTree.leaves]
+    | inr o =>
+      rw [hstep] at h
+      simp only at h
+      subst h
+      -- the only way to accept: the `accept` action with no tokens left
+      unfold step at hstep
+      simp only at hstep
+      split at hstep
+      · split at hstep
+        · cases hstep
+        · split at hstep <;> cases hstep
+        · cases hstep
+      · split at hstep
+        · cases hstep
+        · next s' extra rep _ =>
+          split at hstep
+          · cases hstep
+          · cases extra with
+            | true => simp only [if_true] at hstep; split at hstep <;> cases hstep
+            | false => simp only [Bool.false_eq_true, if_false] at hstep; split at hstep <;> cases hstep
+        · split at hstep <;> cases hstep
+        · split at hstep
+          · next htoks =>
+            split at hstep
+            · next t' hacc =>
+              cases hstep
+              rw [htoks, List.append_nil]
+              exact acceptTree_leaves _ _ hacc
+            · cases hstep
+          · cases hstep
+        · cases hstep
+        · cases hstep
+
 end TsVerif.C03
